@@ -3,6 +3,7 @@ package main
 import (
 	"flag"
 	"fmt"
+	"golang.org/x/tools/go/ssa"
 	"os"
 	"sort"
 	"strings"
@@ -19,6 +20,33 @@ func main() {
 		os.Exit(cmdCheck(os.Args[2:]))
 	case "dev":
 		os.Exit(cmdDev(os.Args[2:]))
+	case "maploops":
+		p, err := loadProgram("/repo", "/verif/contracts", defaultPatterns)
+		if err != nil {
+			fmt.Fprintln(os.Stderr, err)
+			os.Exit(2)
+		}
+		var keys []string
+		for k := range p.fnByKey {
+			keys = append(keys, k)
+		}
+		sort.Strings(keys)
+		for _, k := range keys {
+			fn := p.fnByKey[k]
+			if p.isExternal(fn) {
+				continue
+			}
+			fns := append([]*ssa.Function{fn}, fn.AnonFuncs...)
+			for _, f := range fns {
+				for i, h := range mapRangeLoops(f) {
+					name := shortKey(k)
+					if f != fn {
+						name += "$" + f.Name()
+					}
+					fmt.Printf("%s#%d %s\n", name, i+1, p.pos(h.Instrs[0].Pos()))
+				}
+			}
+		}
 	case "ssa":
 		p, err := loadProgram("/repo", "/verif/contracts", defaultPatterns)
 		if err != nil {
@@ -64,7 +92,7 @@ func cmdDev(args []string) int {
 	var units []*UnitResult
 	for _, k := range p.CS.Order {
 		c := p.CS.Funcs[k]
-		if c.External || c.Trusted {
+		if c.External {
 			continue
 		}
 		sel := len(fs.Args()) == 0
@@ -79,6 +107,17 @@ func cmdDev(args []string) int {
 			}
 		}
 		if !sel {
+			continue
+		}
+		if len(c.Commutes) > 0 {
+			for _, cr := range c.Commutes {
+				units = append(units, p.encodeCommute(c, cr.Loop, cr.Label))
+			}
+			if len(c.Ensures)+len(c.Requires)+len(c.Invs) == 0 && !c.Safety {
+				continue
+			}
+		}
+		if c.Trusted {
 			continue
 		}
 		u := p.encodeUnit(c)
@@ -164,4 +203,3 @@ func firstLines(s string, n int) string {
 	}
 	return strings.Join(ls, " | ")
 }
-
